@@ -238,6 +238,23 @@ def _mk_descriptor(kind):
         segs = captured["segments"]
         env.witness("descriptor_built")
         psi_sep = eq.psi_sep
+        # adjoining radial segments of every poloidal region share their boundary psi value, and private-flux segments end at the psi
+        # of their own X-point.  (upper_pf2 / lower_pf2 are the tail of the gridded pf segment: they end where that segment ends.)
+        parent = {"upper_pf2": "upper_pf", "lower_pf2": "lower_pf"}
+        for rname, reg in captured["regions"].items():
+            names = reg["segments"]
+            for a, b in zip(names[:-1], names[1:]):
+                if b in parent and parent[b] == a:
+                    continue  # split of one gridded segment
+                end_a = segs[parent.get(a, a)]["psi_end"]
+                start_b = segs[b]["psi_start"]
+                env.claim("adjoining_segments_share_boundary_psi:%s" % rname, end_a == start_b)
+            if "psi" in reg and reg["psi"] is not None:
+                # leg regions: the separatrix this leg lies on
+                pf = [n for n in names if n.endswith("_pf") or n.endswith("_pf2")][-1]
+                # (a connected double null deliberately grids both private-flux regions up to the inner separatrix psi_sep[0])
+                want = psi_sep[0] if kind == "cdn" else reg["psi"]
+                env.claim("pf_segment_ends_at_the_leg's_own_separatrix:%s" % rname, segs[parent.get(pf, pf)]["psi_end"] == want)
         if kind in ("lsn", "usn"):
             pf = "lower_pf" if kind == "lsn" else "upper_pf"
             env.claim("same_gradient_both_sides_of_separatrix",
